@@ -372,13 +372,19 @@ func init() {
 			{Name: "failure", Pkg: pkgCtl, Func: "VH_Fault", Quick: []int{1, 1, 1, oLeanPods | oThreeRevs, 3, 0}, Thorough: []int{1, 2, 1, oThreeRevs, 6, 0}, Bounds: faultBounds,
 				Asserts: []string{"a failed API call makes the reconcile report failure", "after the failure a fixed point is reached", "every delete has a reason", "created ordinal is desired", "no pod outside the desired set remains"},
 				Covers:  []string{"a call failed", "recovered from a failure", "fault injected at pod.create", "fault injected at pod.delete", "fault injected at set.updateStatus", "fault injected at rev.list", "fault injected at pvc.create"}, MaxSteps: 40_000_000},
+			{Name: "two-failures", Pkg: pkgCtl, Func: "VH_Fault", Quick: []int{0, 1, 0, oLeanPods, 2, 0, 2}, Thorough: []int{1, 1, 1, oLeanPods | oThreeRevs, 2, 0, 2},
+				Bounds: func(a []int) string {
+					return fmt.Sprintf("as 'failure' with up to two failing calls in the same reconcile (server error or conflict), <=%d pods, replicas in [0,%d], <=%d slots", a[0], a[1], a[2])
+				},
+				Asserts: []string{"a failed API call makes the reconcile report failure", "after the failure a fixed point is reached"},
+				Covers:  []string{"two calls failed in one reconcile"}, MaxSteps: 40_000_000},
 			{Name: "crash", Pkg: pkgCtl, Func: "VH_Fault", Quick: []int{1, 1, 1, oLeanPods | oThreeRevs, 1, 1}, Thorough: []int{2, 2, 1, oLeanPods | oThreeRevs, 1, 1}, Bounds: faultBounds,
 				Asserts: []string{"after the failure a fixed point is reached", "no pod outside the desired set remains"},
 				Covers:  []string{"crash injected", "recovered from a crash"}, MaxSteps: 40_000_000},
 		},
 		Stubs:        ctlStubs,
 		Assumptions:  append([]string{"one fault per reconcile in the quick tier; the recovery rounds are fault free", "fairness premise as in C02"}, stepAssume...),
-		OutsideClaim: []string{"more than one fault in one reconcile (pairs: thorough tier only where registered)", "faults during the recovery rounds"},
+		OutsideClaim: []string{"more than two faults in one reconcile", "faults during the recovery rounds"},
 	})
 
 	register(&spec{
